@@ -90,6 +90,19 @@ def locks_part(ctx, v, rng, schema):
         v.bump("locked tables: %d" % len(got))
 
 
+def ensure_entries(schema, wb, flags):
+    """at least one comment and one downtime per backend: the soak's mutator clones them"""
+    from . import worldgen
+    hosts = wb["tables"]["hosts"]["rows"]
+    for tname in ("comments", "downtimes"):
+        t = wb["tables"].get(tname)
+        if t is None or t["rows"] or not hosts:
+            continue
+        row = {c["name"]: json.loads(json.dumps(worldgen.DEFAULTS[c["dtype"]])) for c in worldgen.table_columns(schema, tname, flags)}
+        row.update({"id": 1, "host_name": hosts[0]["name"], "service_description": "", "author": "alice", "comment": "first"})
+        t["rows"].append(row)
+
+
 def soak_part(ctx, v, rng, schema, out):
     binary, err = common.build_harness(race=True)
     if binary is None:
@@ -105,6 +118,7 @@ def soak_part(ctx, v, rng, schema, out):
         for i in range(rng.choice([2, 2, 3])):
             wb, flags = worldfam.small_world(rng, schema, {"nhosts": [4, 6]})
             wb["id"], wb["name"], wb["sources"] = "b%d" % i, "Backend %d" % i, ["self"]
+            ensure_entries(schema, wb, flags)
             wbs.append(wb)
         conns = [{"id": wb["id"], "name": wb["name"], "sources": ["self"], "flags": wb.get("flags", []), "tables": wb["tables"]} for wb in wbs]
         cfg = {"update_interval": 1, "full_update_interval": rng.choice([5, 7, 11]), "max_parallel_peer_connections": rng.choice([1, 3]), "backend_keepalive": False,
